@@ -156,6 +156,34 @@ def correspond(res, tier):
             for name, s in (('', dt), ('x', dt.mirror_x()), ('y', dt.mirror_y()), ('z', dt.mirror_z())):
                 add('q3 int %s %s %s' % (enc_scheme(s), f3, ' '.join(q2s(v) for v in box3)),
                     q2s(s.integrate(mk_fun(f3), *box3)), ('int3t', e3, name, f3, tuple(box3)), nt)
+        # mirror CHAINS as a history on one object family (the classes memoise their mirrors): random walks of mirror
+        # requests, revisiting objects handed out earlier; every step must be the model's mirror of the object it
+        # was requested from (the model is stateless)
+        fam2 = [p2, Q.DuffyScheme2D(p2, symmetric=False)]
+        for obj in fam2:
+            pool = [obj]
+            for step in range(rng.randint(3, 7)):
+                src_ = rng.choice(pool)
+                m = rng.choice('xy')
+                nxt = src_.mirror_x() if m == 'x' else src_.mirror_y()
+                add('q2 mir%s %s' % (m, enc_scheme(src_)), enc_scheme(nxt), ('chain2', ex, ey, type(obj).__name__, step, m), nt)
+                pool.append(nxt)
+        pool1 = [sx]
+        for step in range(rng.randint(2, 4)):
+            src_ = rng.choice(pool1)
+            nxt = src_.mirror()
+            add('q1 mirror ' + enc_scheme(src_), enc_scheme(nxt), ('chain1', ex, step), nt)
+            pool1.append(nxt)
+        if len(px) <= 2:
+            p3c = Q.ProductScheme3D(sx)
+            for obj in (p3c, Q.DuffySchemeTouch3D(p3c)):
+                pool = [obj]
+                for step in range(rng.randint(3, 6)):
+                    src_ = rng.choice(pool)
+                    m = rng.choice('xyz')
+                    nxt = getattr(src_, 'mirror_' + m)()
+                    add('q3 mir%s %s' % (m, enc_scheme(src_)), enc_scheme(nxt), ('chain3', ex, type(obj).__name__, step, m), nt)
+                    pool.append(nxt)
         if case < 3:
             res.sample(dict(rule_x=ex, rule_y=ey, f1=f1, f2=f2, box2=[q2s(v) for v in box2]))
 
@@ -235,6 +263,22 @@ def search(res, tier, boost=False):
                 res.count(('mirror-twice', deg, type(s).__name__, nm))
                 if not (np.all(m2.points == s.points) and np.all(m2.weights == s.weights)):
                     fail('C15:mirror-twice:' + nm, deg=deg)
+        # mirror chains on one object family, against the definition: the points of the result are the base points with
+        # coordinate i reflected iff mirror_i was applied an odd number of times; weights unchanged
+        for s0, axes in ((p2, 'xy'), (Q.DuffyScheme2D(p2, False), 'xy'), (Q.ProductScheme3D(base), 'xyz')):
+            pool = [(s0, ())]
+            for step in range(8):
+                src_, hist = pool[rng.randrange(len(pool))]
+                ax = rng.choice(axes)
+                nxt = getattr(src_, 'mirror_' + ax)()
+                hist = hist + (ax, )
+                pool.append((nxt, hist))
+                want = [(1 - s0.points[i]) if hist.count(a_) % 2 else s0.points[i] for i, a_ in enumerate(axes)]
+                res.count(('mirror-chain', deg, type(s0).__name__, hist))
+                if not (all(np.all(nxt.points[i] == want[i]) for i in range(len(axes))) and np.all(nxt.weights == s0.weights)):
+                    fail('C15:mirror-chain:%s' % type(s0).__name__, deg=deg, chain=''.join(hist),
+                         note='mirrors requested as a history on one object family')
+                    break
         m2 = base.mirror().mirror()
         if not (np.all(m2.points == base.points) and np.all(m2.weights == base.weights)):
             fail('C15:mirror-twice:1d', deg=deg)
